@@ -147,7 +147,7 @@ def serialize(rng, e, declaration=None):
 
     def ser(e):
         tag = e["local"] if e["prefix"] is None else f"{e['prefix']}:{e['local']}"
-        pieces = [("xmlns:" + p, u) for p, u in e["decls"].items()] + \
+        pieces = [("xmlns" if p is None else "xmlns:" + p, u) for p, u in e["decls"].items()] + \
                  [((a if p is None else f"{p}:{a}"), v) for p, a, v in e["attrs"]]
         rng.shuffle(pieces)
         attrs = "".join(rng.choice([" ", "  ", "\n  "]) + k + "=" + esc_attr(rng, v) for k, v in pieces)
